@@ -66,7 +66,9 @@ UaxEnd ==
   /\ pc' = "done" /\ UNCHANGED <<s, sep, opps, i, start, inws, ops, k, cur>>
 
 Next == (\E c \in Alphabet : Type(c)) \/ BeginAscii \/ AsciiStep \/ AsciiEnd \/ BeginUax \/ UaxStep \/ UaxEnd
-Spec == Init /\ [][Next]_vars
+Spec == Init /\ [][Next]_vars /\ WF_vars(AsciiStep \/ AsciiEnd \/ UaxStep \/ UaxEnd)
+\* once a call has begun it returns
+Terminates == (pc # "type") ~> (pc = "done")
 
 ToLogged(str, wd) ==
   [a |-> wd.a, n |-> wd.e - wd.a, wa |-> wd.e, wn |-> wd.b - wd.e, t |-> SubSeq(str, wd.a, wd.e - 1),
